@@ -91,6 +91,9 @@ def sweep_buffers(s, xidx, mod):
     near = list(s); near[xidx] = (near[xidx] + 1) & 0xff; bases.append(bytes(near))
     if "n" in flags:
         bases.append(bytes(s).swapcase())
+    # the case bit flipped on bytes whether or not they are letters (0x5b..0x60 sit between 'Z' and 'a'): must match only for real letters under nocase
+    bases.append(bytes(c ^ 0x20 for c in s))
+    flip = list(s); flip[xidx] ^= 0x20; bases.append(bytes(flip))
     for b in bases:
         for k in keys:
             forms = [bytes(c ^ k for c in b), bytes(x for c in b for x in (c ^ k, 0 ^ k))]
